@@ -18,9 +18,8 @@ import (
 	"verif/mc/cuworld"
 	"verif/mc/explore"
 	"verif/mc/harness"
+	"verif/mc/platlat"
 )
-
-var runPlatform func(r *harness.Run)
 
 type refKey struct {
 	prog string
@@ -134,7 +133,11 @@ func body(k *cuworld.Kernel, g cuworld.Geometry, o cuworld.TimingOpts) explore.B
 }
 
 func main() {
+	platlat.MaybeWorker() // the platform layer re-executes this binary as worker processes
 	r := harness.Start("C02", "model_checking")
+	if r.Replay != "" {
+		platlat.RunC02Platform(r) // returns at once unless the replay file is a platform case (then it exits itself)
+	}
 	t := cuworld.LoadTemplates()
 	type geo = cuworld.Geometry
 	geos := []geo{{64, 1}, {128, 1}}
@@ -243,8 +246,8 @@ func main() {
 		}
 		r.Cov["templates_outside_supported_subset(emulator_reports_not_implemented)"] = uns
 	}
-	if runPlatform != nil && r.Replay == "" {
-		runPlatform(r)
+	if r.Replay == "" {
+		platlat.RunC02Platform(r)
 	}
 	_ = bytes.Equal
 	r.Finish()
